@@ -148,6 +148,14 @@ func c05Body(depth int) mc.Body {
 				m = append(m, c05Req{fmt.Sprintf("node points on A with NaN at position %d", pos), "nan-node-point", false, "A", "", mk(pos)})
 				m = append(m, c05Req{fmt.Sprintf("node points on the root with NaN at position %d", pos), "nan-node-point", false, root, "", mk(pos)})
 			}
+			// NaN in a point that is itself marked deleted (point-level tombstone count): still a value the store cannot hold
+			for _, tb := range []int{1, 2, 3} {
+				m = append(m, c05Req{fmt.Sprintf("node point on A with NaN and tombstone count %d", tb), "nan-node-point", false, "A", "", data.Points{{Type: "tn", Value: nan, Tombstone: tb, Time: tick()}}})
+				for e := range g.edges {
+					m = append(m, c05Req{fmt.Sprintf("edge point on %s>%s with NaN and tombstone count %d", e[0], e[1], tb), "nan-edge-point", true, e[1], e[0], data.Points{{Type: "tn", Value: nan, Tombstone: tb, Time: tick()}}})
+					break
+				}
+			}
 			// NaN shadowed inside the batch by another point of the same identity (newer, older, key alias)
 			dup := func(nanFirst bool, newer bool, alias bool) data.Points {
 				t1, t2 := tick(), tick()
@@ -335,7 +343,7 @@ func checkC05(r *mc.Report, thorough bool) {
 		depth = 4
 	}
 	r.Explore(mc.Config{Name: fmt.Sprintf("graph-states-d%d", depth), Prune: true, SplitDepth: 2, StopAfterViolations: 12,
-		Rule: fmt.Sprintf("explicit-state search over graph states reached by %d legal writes (create/delete/undelete any of the 9 edges among root,A,B,C in either direction, node points), states = (edge set with tombstones, nodes with points, remaining depth); in EVERY new state the whole menu of must-be-refused requests is executed: self edges, root tombstone (value 1 alone / in a batch; values 3, 2, 0.5, -1, -2), new edge without node type, every edge that would close a cycle through live or deleted edges (incl. through the root), NaN at each position of node-point and edge-point batches; after each: error reply, full snapshot unchanged, nothing on up.>, follow-up write+read answered", depth)},
+		Rule: fmt.Sprintf("explicit-state search over graph states reached by %d legal writes (create/delete/undelete any of the 9 edges among root,A,B,C in either direction, node points), states = (edge set with tombstones, nodes with points, remaining depth); in EVERY new state the whole menu of must-be-refused requests is executed: self edges, root tombstone (value 1 alone / in a batch; values 3, 2, 0.5, -1, -2), new edge without node type, every edge that would close a cycle through live or deleted edges (incl. through the root), NaN at each position of node-point and edge-point batches, NaN in points that carry a tombstone count; after each: error reply, full snapshot unchanged, nothing on up.>, follow-up write+read answered", depth)},
 		c05Body(depth))
 	sh.CleanupTemplate()
 	r.Assume("reference graph: an edge parent>child is cyclic iff parent==child or child is an ancestor of parent through any (live or deleted) edges")
